@@ -32,7 +32,7 @@ func checkProtoSource(c *core.Ctx, g *model.GenPkg, rawVar string, got *descript
 		return
 	}
 	goFile := g.Fset.Position(obj.Pos()).Filename
-	base := strings.TrimSuffix(filepath.Base(goFile), ".pulsar.go")
+	base := strings.TrimSuffix(strings.TrimSuffix(filepath.Base(goFile), ".pulsar.go"), ".pb.go")
 	protoPath := filepath.Join(filepath.Dir(goFile), base+".proto")
 	pos := strings.TrimPrefix(protoPath, c.Repo+"/")
 	if _, err := os.Stat(protoPath); err != nil {
@@ -92,15 +92,29 @@ func checkProtoSource(c *core.Ctx, g *model.GenPkg, rawVar string, got *descript
 	// buf "managed mode" (buf.gen.yaml next to the sources) adds language-specific file options to the schema
 	// it hands to plugins; those the source does not set itself are taken from the descriptor.
 	managedNote := ""
-	if y, err := os.ReadFile(filepath.Join(filepath.Dir(protoPath), "buf.gen.yaml")); err == nil && managedRe.Match(y) && g2.Options != nil {
+	var y []byte
+	for dir := filepath.Dir(protoPath); strings.HasPrefix(dir, c.Repo); dir = filepath.Dir(dir) {
+		if b, err := os.ReadFile(filepath.Join(dir, "buf.gen.yaml")); err == nil {
+			y = b
+			break
+		}
+		if dir == c.Repo {
+			break
+		}
+	}
+	if y != nil && managedRe.Match(y) && g2.Options != nil {
 		if want.Options == nil {
 			want.Options = &descriptorpb.FileOptions{}
 		}
 		wm, gm := want.Options.ProtoReflect(), g2.Options.ProtoReflect()
-		for _, n := range []string{"java_package", "java_outer_classname", "java_multiple_files", "cc_enable_arenas", "optimize_for",
-			"objc_class_prefix", "csharp_namespace", "php_namespace", "php_metadata_namespace", "ruby_package", "java_string_check_utf8"} {
+		managed := []string{}
+		if strings.Contains(string(y), "go_package_prefix") {
+			managed = append(managed, "go_package") // managed mode rewrites go_package under the configured prefix
+		}
+		for _, n := range append(managed, []string{"java_package", "java_outer_classname", "java_multiple_files", "cc_enable_arenas", "optimize_for",
+			"objc_class_prefix", "csharp_namespace", "php_namespace", "php_metadata_namespace", "ruby_package", "java_string_check_utf8"}...) {
 			fd := wm.Descriptor().Fields().ByName(protoreflect.Name(n))
-			if fd != nil && !wm.Has(fd) && gm.Has(fd) {
+			if fd != nil && gm.Has(fd) && (!wm.Has(fd) || n == "go_package") {
 				wm.Set(fd, gm.Get(fd))
 				managedNote = "; language-specific file options added by buf managed mode are not compared"
 			}
